@@ -62,6 +62,10 @@ def split(ops, cl, ml):
             cur["verdicts"].append(m)
         if o.startswith("OBJ "):
             cur["nobj"] = cur.get("nobj", 0) + 1
+        if o == "TJ":
+            cur["ntree"] = cur.get("ntree", 0) + 1
+        if o.startswith("TO "):
+            cur["ntreeobj"] = cur.get("ntreeobj", 0) + 1
         if o.startswith("CRASH"):
             cur["crash"] = True        # also when a modifying call of the history itself aborts before the export
         if o.startswith("KNOWN "):
@@ -109,7 +113,7 @@ def annotate(binp, d, script, env=None):
     for i, l in enumerate(o):
         if l.startswith("OBJ ") and i < len(c) and i < len(m) and classify(c[i], m[i]) != "diff":
             continue
-        if l.startswith(("CMP", "FIX", "CRASH", "LOADFAIL", "OBJ ")) or l.startswith(UNIT):
+        if l.startswith(("CMP", "FIX", "CRASH", "LOADFAIL", "OBJ ")) or l == "TJ" or l.startswith(UNIT):
             ci = c[i] if i < len(c) else "<none>"
             mi = m[i] if i < len(m) else "<none>"
             out.append("#   %s | %s | %s%s" % (l[:1500], ci[:300], mi[:400], "" if classify(ci, mi) != "diff" else "   <== DIFFERS"))
@@ -195,6 +199,10 @@ def run_engine(tier, seed):
             if cs.get("nobj"):
                 bump("object-level.start-tags", cs["nobj"])
                 njudged += cs["nobj"]
+            if cs.get("ntree"):
+                bump("tree-level.trees", cs["ntree"])
+                bump("tree-level.objects", cs.get("ntreeobj", 0))
+                njudged += cs["ntree"]
             if not cs["verdicts"]:
                 bump("not-loaded")
             distinct.add(hashlib.md5("\n".join(cs["script"]).encode()).digest()[:8])
@@ -233,5 +241,6 @@ def run_engine(tier, seed):
                     "kind 0, memattr values, cpukinds with infos, allow, userdata of lengths 0..9 plain and base64) x export backend x "
                     "import backend x {buffer, file} x {v3, v2}; each yields a CMP verdict (TopoEquiv + canonical lines) and a FIX verdict "
                     "(second export byte-identical) and, for v3 nolibxml exports, OBJ verdicts on sampled objects (scanned start tag = exportAttrs of the "
-                    "object, importAttrs of it = the reloaded object); a unit case = one call of the escaper / attribute scanner / base64 encoder / decoder / "
+                    "object, importAttrs of it = the reloaded object) and, for topologies of at most 160 objects, one TREE verdict (element tree of the real "
+                    "export = exportTree of the original object tree, which is TreeValid; importTree of it = normTree of the original = the reloaded tree); a unit case = one call of the escaper / attribute scanner / base64 encoder / decoder / "
                     "number conversion compared byte for byte with the model; distinct = distinct (script) or (unit call, C result)"}
